@@ -161,3 +161,11 @@ func genMixedTerm(t *rapid.T) *Case {
 	}
 	return c
 }
+
+// genMixedTermBounded: mixed workload with a termination event over a bounded carrier (senders park inside the carrier).
+func genMixedTermBounded(t *rapid.T) *Case {
+	c := genMixedTerm(t)
+	c.Prop = "mixed_term_bounded"
+	c.Cfg.Cap = rapid.SampledFrom([]int{1, 1, 2}).Draw(t, "cap_bounded")
+	return c
+}
